@@ -11,6 +11,8 @@ CLAIMED = {
          "Inner payloads of known verbs well-formed; mean junk rate below the queue's service rate; ambiguous framing held to exactly-once/residence only."),
  "C05": ("exploration", "3.C05", "Seeded search over STATP histories (0-30 records, hot/boundary/repeated positions, 1-byte form) interleaved with refreshes, under loss/dup/reorder/stalls; history oracle: applied partial writes == concatenation of arrived records in arrival order, one STATQ (seq 1..191) per arrival.",
          "Records stay inside the block; arrival order = delivery order at the client's endpoint; an abandoned connection is held to prefix consistency only."),
+ "C15": ("exploration", "3.C15", "Seeded search over responder sets (identifiers, names incl. '|' and latin-1), reply multiplicity/latency/loss, eight filter settings, drawn timing tables and loop stalls; oracle on the listed set (must/may windows that allow the consumer's one-per-interval service time), field integrity, termination bounds, endpoint close and LOC task cleanup.",
+         "Only hello replies reach the locator endpoint; two spas never share an identifier."),
 }
 PENDING = {}
 NA = {
